@@ -137,4 +137,83 @@ theorem discPath_sound_nolimit (G : MG) (hS : Simple G) (hW : WFG G) (nb bnb : N
     obtain ⟨p', hne, hp'⟩ := discFinish_found hi hf hlim
     rw [hp'] at h; injection h with h; injection h with _ h2; injection h2 with h2 _; exact hne h2
 
+/-! ## the degenerate query `first_node = u` -/
+
+theorem inner_all_skip {cls : Option Nat → Nat → Nat → Cls} (this : Nat) (prev : Option Nat) :
+    ∀ (l : List Nat) (s : St), (∀ next ∈ l, next ∈ s.explored ∨ cls prev this next = .skip) →
+      inner cls this prev l s = s := by
+  intro l
+  induction l with
+  | nil => intro s _; rfl
+  | cons next rest ih =>
+    intro s h
+    have hr : ∀ n ∈ rest, n ∈ s.explored ∨ cls prev this n = .skip := fun n hn => h n (List.mem_cons_of_mem _ hn)
+    unfold inner
+    by_cases hex : next ∈ s.explored
+    · simp only [hex, if_true]; exact ih s hr
+    · simp only [hex, if_false]
+      rcases h next (by simp) with h1 | h1
+      · exact absurd h1 hex
+      · rw [h1]; exact ih s hr
+
+/-- with `first_node = u` every candidate is shielded by `u` itself or not adjacent: nothing is found -/
+theorem uncovPdPath_first_eq_u (G : MG) (hS : Simple G) (nb : Nat → List Nat) (q : Query)
+    (hfu : q.first = some q.u) (maxLen : Nat) (p : List Nat) :
+    uncovPdPath G nb q maxLen ≠ .ok (p, true) := by
+  intro h
+  unfold uncovPdPath at h
+  cases hg : uncovGuard G q with
+  | true => rw [hg, if_pos rfl] at h; cases h
+  | false =>
+  rw [hg, if_neg (by simp)] at h
+  have hsn : q.second = none := by
+    cases hs : q.second with
+    | none => rfl
+    | some s => simp [uncovGuard, hfu, hs] at hg
+  have hb : secondBad G q = false := by simp [secondBad, hsn]
+  rw [hb, if_neg (by simp), if_neg (by simp [hsn])] at h
+  have hloop : (loop nb (uncovCls G q) true maxLen (uncovInit q)).found = false := by
+    have hinit : uncovInit q = { explored := [q.u, q.u], desc := [(q.u, q.u)], queue := [q.u] } := by
+      simp [uncovInit, hfu, hsn, optList]
+    rw [hinit]
+    cases maxLen with
+    | zero => simp [loop]
+    | succ n =>
+      unfold loop
+      simp only [List.lookup_cons, beq_self_eq_true]
+      rw [inner_all_skip]
+      · cases n with
+        | zero => simp [loop]
+        | succ m => simp [loop]
+      · intro next _
+        by_cases hex : next ∈ [q.u, q.u]
+        · exact Or.inl hex
+        · right
+          unfold uncovCls
+          by_cases c1 : (q.u == q.u && q.forbid == some next) = true
+          · rw [if_pos c1]
+          · rw [if_neg c1]
+            simp only
+            by_cases hadj : adj G q.u next = true
+            · rw [if_pos hadj]
+            · rw [if_neg hadj]
+              have : pdCode G q.fc q.u next = false := by
+                cases hp : pdCode G q.fc q.u next with
+                | false => rfl
+                | true => exact absurd (pdCode_adj hp) hadj
+              simp [this]
+  generalize loop nb (uncovCls G q) true maxLen (uncovInit q) = s at h hloop
+  unfold uncovFinish at h
+  rw [hloop] at h
+  by_cases hl : s.limit = true
+  · rw [if_pos hl] at h; injection h with h; injection h with _ h2; cases h2
+  · rw [if_neg hl] at h; simp at h
+
+/-- **Soundness of `uncovered_pd_path`, every query** (also `first_node = u`) -/
+theorem uncovPdPath_sound_all (G : MG) (hS : Simple G) (nb : Nat → List Nat) (q : Query) (maxLen : Nat)
+    (p : List Nat) (h : uncovPdPath G nb q maxLen = .ok (p, true)) (hp : p ≠ []) : UncovPd G q p := by
+  by_cases hfu : q.first = some q.u
+  · exact absurd h (uncovPdPath_first_eq_u G hS nb q hfu maxLen p)
+  · exact uncovPdPath_sound G hS nb q hfu maxLen p h hp
+
 end C18
